@@ -21,9 +21,9 @@ func init() {
 
 func (p *c04) NumCases(tier string) int {
 	if tier == "thorough" {
-		return 3000
+		return 6000
 	}
-	return 100
+	return 400
 }
 
 // keyOfLEK extracts the primary key attributes from a LastEvaluatedKey.
